@@ -74,6 +74,8 @@ func (o *rop) String() string {
 			}
 		}
 		return "batch[" + strings.Join(parts, "; ") + "]"
+	case "fill":
+		return fmt.Sprintf("fill(%d keys w|000000..)", o.n)
 	case "find":
 		if o.n >= 0 {
 			return fmt.Sprintf("find(%s, %s) read %d then Close", short(o.s), short(o.e), o.n)
@@ -107,7 +109,7 @@ func materialise(raw []json.RawMessage) ([]rop, error) {
 			return nil, err
 		}
 		switch o.kind {
-		case "get", "set", "del", "batch", "find", "flush", "reopen", "compact":
+		case "get", "set", "del", "batch", "find", "flush", "reopen", "compact", "fill":
 		default:
 			return nil, fmt.Errorf("unknown op kind %q", o.kind)
 		}
@@ -423,6 +425,29 @@ func (x *run) step(op *rop) *harness.Violation {
 			x.reach["find-nonempty"]++
 		}
 		return x.scan(kv, op.s, op.e, op.n, "find-mismatch", op.String())
+	case "fill":
+		// N keys "w|<6 digits>" with short values, written in batches of up
+		// to 97: ranges wider than any paging an implementation may do
+		// internally; followed by a full scan
+		if op.n <= 0 || op.n > 5000 {
+			return nil
+		}
+		x.prog.at(op.String())
+		for i := 0; i < op.n; {
+			b := kv.BeginBatch()
+			j := i
+			for ; j < op.n && j < i+97; j++ {
+				b.Set(fmt.Sprintf("w|%06d", j), fmt.Sprintf("f%d", j%13))
+			}
+			if err := kv.CommitBatch(b); err != nil {
+				return x.viol("batch-error", fmt.Sprintf("fill: CommitBatch returned %v", err))
+			}
+			for ; i < j; i++ {
+				x.modelSet(fmt.Sprintf("w|%06d", i), fmt.Sprintf("f%d", i%13))
+			}
+		}
+		x.reach["range-of-hundreds-of-rows"]++
+		return x.scan(kv, "", "", -1, "find-mismatch", op.String()+": full scan")
 	case "flush":
 		if x.s.buf == nil {
 			return nil // tolerated in shrunk or hand-written plans
